@@ -80,9 +80,18 @@ def r13_1(ctx):
         name, k = ro_entry(ctx, meth)
         q = ctx.explore(k, mode='layer', facts=ctx.spec_facts(k, checker='none'), tag='nochk')
         nexts = q.edges(lambda ev: ev['k'] == 'ext' and ev['path'].endswith('::next'))
-        fwd = bool(nexts) and all(q.E[e][2]['path'] == '<std::slice::Iter as std::iter::Iterator>::next' and
-                                  not any(VAL[s][0] == 'sym' and VAL[s][1] == 'app' and ('rev' in VAL[s][2].lower()) for s in values.subs(q.E[e][2]['args'][0]))
-                                  for e in nexts)
+        def forward_slice_iter(ev):
+            # next() on a slice iterator (called directly, or through a generic `I: Iterator` in an iterator driver),
+            # not reversed
+            apps = [VAL[s][2] for s in values.subs(ev['args'][0]) if VAL[s][0] == 'sym' and VAL[s][1] == 'app']
+            if any('rev' in a.lower() for a in apps):
+                return False
+            if ev['path'] == '<std::slice::Iter as std::iter::Iterator>::next':
+                return True
+            # through a generic driver the receiver is the slice/vector itself (`iter()` is transparent in the value model);
+            # that it is the stack field is checked just below
+            return ev['path'] == 'std::iter::Iterator::next'
+        fwd = bool(nexts) and all(forward_slice_iter(q.E[e][2]) for e in nexts)
         stack_field = 'f%d' % ctx.readonly_fields()['stack']
         from_field = bool(nexts) and all(any(VAL[s][0] == 'sym' and VAL[s][1] == 'fld' and VAL[s][3] == stack_field for s in values.subs(q.E[e][2]['args'][0])) for e in nexts)
         out.append(inst('R13.1', name + '|registration order', fwd and from_field,
